@@ -96,4 +96,15 @@ TEXT["C11"] = dict(
   note=("PARTIAL: lexical (no symlinks, Unix only). One genuine defect (preserve-paths wrote '..\\x' and absolute names "
         "outside the output directory) was repaired in /repo."),
   technique="Lean 4 proof (path-component model) + sandboxed differential run of the CLI with filesystem snapshots")
+TEXT["C20"] = dict(
+  text=("Lean 4 theorems about the exit-status decision logic (zero exit without error-skipping implies every requested "
+        "item was produced; an input that does not open, a fatal I/O error, a failed validation or a failed extraction "
+        "without skipping implies a non-zero exit; skipping isolates failures) and a differential tie that runs the binary "
+        "built from the current tree: create -> extract byte-for-byte over versions x compressions x extract modes, "
+        "list/info against the library's view, validate on damaged archives, and every sub-command of four format "
+        "families on valid / truncated / corrupted / missing inputs against the library's accept/reject verdict and the "
+        "model's exit-status table."),
+  note=("PARTIAL: the proof covers the decision table only; argument parsing and output formatting are observed. One "
+        "defect repaired (mpq validate exited 0 after reporting failure)."),
+  technique="Lean 4 proof (decision table) + differential run of the CLI binary against the library and the model")
 NA = {}
